@@ -255,3 +255,35 @@ package transport
 //@   assert at call ParseInt#1 arg0 == hf.Value && arg1 == 10 && arg2 == 32
 //@   assert at call decodeGrpcMessage#1 arg0 == hf.Value && hf.Name == "grpc-message"
 //@   assert at call NewWithProto#1 arg0 == grpcStatusCode && arg1 == grpcMessage && isGRPC && headerError == "" && endStream
+
+// ---- C15: server enforcement of the client's ping rate ---------------------------------------------
+//
+// For a ping that is not an ack: if server-sent headers/data reset the strikes
+// since the last ping, the counter goes to 0; otherwise it goes up by one
+// exactly when the ping came less than T after the previous one, with
+// T = 2h when no stream is open and pings without streams are not permitted,
+// MinTime otherwise. GOAWAY(ENHANCE_YOUR_CALM) is queued exactly when the
+// counter exceeds 2, and the ping's arrival time is recorded on every path.
+
+//@ import http2 "golang.org/x/net/http2"
+
+// queueing an item touches only the control buffer (not verified here)
+//@ func (*controlBuffer).put
+//@   trusted
+
+//@ monitor http2Server.mu protects activeStreams, state
+
+//@ spec func minPingGap(t *http2Server, ns int) time.Duration {
+//@   if ns < 1 && !t.kep.PermitWithoutStream { return 2 * time.Hour }
+//@   return t.kep.MinTime
+//@ }
+
+//@ func (*http2Server).handlePing
+//@   prop C15
+//@   requires t != nil && f != nil && t.controlBuf != nil
+//@   assert at call put#1 arg1.(*ping).ack
+//@   assert at call put#2 t.pingStrikes > 2 && arg1.(*goAway).code == http2.ErrCodeEnhanceYourCalm && arg1.(*goAway).closeConn != nil
+//@   assert at return 3 ncalls("put") == 1 && lastret("CompareAndSwapUint32") == 1 && t.pingStrikes == 0 && t.resetPingStrikes == 0 && t.lastPingAt == now
+//@   assert at return end lastret("CompareAndSwapUint32") == 0 && t.lastPingAt == now
+//@   assert at return end Z(t.pingStrikes) == (Z(old(t.pingStrikes)) + ite(old(t.lastPingAt).Add(minPingGap(t, ns)).After(now), Z(1), Z(0))) % 256
+//@   assert at return end (ncalls("put") == 2) == (t.pingStrikes > 2)
